@@ -106,6 +106,8 @@ RFC_WF = ("resolved_full_cites is not None and forall(lambda i: implies(0 <= i a
           "resolved_full_cites[i][0] is not None and resolved_full_cites[i][1] is not None "
           "and resolved_full_cites[i][0].metadata is not None and isinstance(resolved_full_cites[i][0], FullCitation)))")
 
+MD_WF = ("forall(lambda i: implies(0 <= i and i < len(resolved_full_cites), metadata_wf(resolved_full_cites[i][0])))")
+
 # which entries of resolved_full_cites match an antecedent guess (written from the statement:
 # "whose party names contain the short form's antecedent")
 ANTE_DEFS = {
@@ -117,7 +119,7 @@ ANTE_DEFS = {
 contract("resolve._filter_by_matching_antecedent",
     types={"resolved_full_cites": "seq[tuple[obj<FullCitation>,obj<Resource>]]", "antecedent_guess": "str"},
     returns="obj<Resource>", noraise=True, prop="C07",
-    requires={"rfc_wf": RFC_WF, "ag": "antecedent_guess is not None"},
+    requires={"rfc_wf": RFC_WF, "md_wf": MD_WF, "ag": "antecedent_guess is not None"},
     defs=ANTE_DEFS,
     locals_types={"matches": "seq[obj<Resource>]"},
     ensures={
@@ -159,7 +161,6 @@ _pairs = " or ".join(
     for f in NAME_FIELDS for g in NAME_FIELDS)
 REF_DEFS = {"MR": f"lambda i: isinstance(resolved_full_cites[i][0], FullCaseCitation) and ({_pairs})"}
 
-MD_WF = ("forall(lambda i: implies(0 <= i and i < len(resolved_full_cites), metadata_wf(resolved_full_cites[i][0])))")
 
 
 @spec("metadata_wf")
@@ -191,7 +192,7 @@ contract("resolve._filter_by_matching_plaintiff_or_defendant_or_resolved_names",
     types={"resolved_full_cites": "seq[tuple[obj<FullCitation>,obj<Resource>]]", "reference_citation": "obj<ReferenceCitation>"},
     returns="obj<Resource>", noraise=True, prop="C07",
     requires={"rfc_wf": RFC_WF, "md_wf": MD_WF,
-              "ref": "reference_citation is not None and reference_citation.metadata is not None"},
+              "ref": "reference_citation is not None and reference_citation.metadata is not None and metadata_wf(reference_citation)"},
     defs=REF_DEFS, locals_types={"matches": "seq[obj<Resource>]"}, merge_ifs=True,
     ghost={"midx": "seq[int]", "minv": "seq[int]"},
     ensures=uniqueness_clauses("MR"))
@@ -211,7 +212,7 @@ ghost_code("resolve._filter_by_matching_plaintiff_or_defendant_or_resolved_names
 contract("resolve._resolve_supra_citation",
     types={"supra_citation": "obj<SupraCitation>", "resolved_full_cites": "seq[tuple[obj<FullCitation>,obj<Resource>]]"},
     returns="obj<Resource>", noraise=True, prop="C07",
-    requires={"rfc_wf": RFC_WF, "cite": "supra_citation is not None and supra_citation.metadata is not None"},
+    requires={"rfc_wf": RFC_WF, "md_wf": MD_WF, "cite": "supra_citation is not None and supra_citation.metadata is not None and metadata_wf(supra_citation)"},
     defs={"M": ANTE_DEFS["M"].replace("antecedent_guess", "supra_citation.metadata.antecedent_guess")},
     ensures=dict({k_: (v_ if k_ != "resolves_unique" else "implies(truthy(supra_citation.metadata.antecedent_guess), " + v_ + ")") for k_, v_ in uniqueness_clauses("M").items()},
                  no_guess_none="implies(not truthy(supra_citation.metadata.antecedent_guess), result is None)"))
@@ -222,7 +223,7 @@ contract("resolve._resolve_reference_citation",
     types={"reference_citation": "obj<ReferenceCitation>", "resolved_full_cites": "seq[tuple[obj<FullCitation>,obj<Resource>]]"},
     returns="obj<Resource>", noraise=True, prop="C07",
     requires={"rfc_wf": RFC_WF, "md_wf": MD_WF,
-              "ref": "reference_citation is not None and reference_citation.metadata is not None"},
+              "ref": "reference_citation is not None and reference_citation.metadata is not None and metadata_wf(reference_citation)"},
     defs=REF_DEFS,
     ensures=dict({k_: (v_ if k_ != "resolves_unique" else "implies(truthy(reference_citation.metadata.defendant) or truthy(reference_citation.metadata.plaintiff) or truthy(reference_citation.metadata.resolved_case_name_short) or truthy(reference_citation.metadata.resolved_case_name), " + v_ + ")") for k_, v_ in uniqueness_clauses("MR").items()},
                  no_names_none="implies(not truthy(reference_citation.metadata.defendant) and not truthy(reference_citation.metadata.plaintiff)"
@@ -327,7 +328,7 @@ def _str_isdigit(e, st, s):
 contract("resolve._has_invalid_pin_cite",
     types={"full_cite": "obj<FullCitation>", "id_cite": "obj<IdCitation>"}, returns="bool", noraise=True, prop="C07",
     requires={
-        "args": "full_cite is not None and id_cite is not None and full_cite.groups is not None and id_cite.metadata is not None",
+        "args": "full_cite is not None and id_cite is not None and full_cite.groups is not None and id_cite.metadata is not None and metadata_wf(id_cite)",
         # class invariant of citations built from the shipped extractors: the page group matches PAGE_NUMBER_REGEX (digit-shape lemma 4.2)
         "page_shape": "page_shape(full_cite.groups.get('page'))",
         # pin cites come from a 300-character match window (helpers.MAX_MATCH_CHARS)
@@ -349,7 +350,7 @@ contract("resolve._resolve_id_citation",
            "resolutions": "defaultdict[obj<Resource>,seq[obj<CitationBase>]]"},
     returns="obj<Resource>", noraise=True, prop="C07",
     requires={
-        "id": "id_citation is not None and id_citation.metadata is not None",
+        "id": "id_citation is not None and id_citation.metadata is not None and metadata_wf(id_citation)",
         "pin_len": "id_citation.metadata.pin_cite is None or len(id_citation.metadata.pin_cite) <= 300",
         # loop invariant (vi) of resolve_citations: the last resolution is a key with a non-empty list whose head is a full citation
         "last_in_keys": "implies(last_resolution is not None, map_has(resolutions, reskey(last_resolution)) and len(map_get(resolutions, reskey(last_resolution))) >= 1)",
@@ -394,8 +395,8 @@ RFC_CASE_WF = ("forall(lambda i: implies(0 <= i and i < len(resolved_full_cites)
 contract("resolve._resolve_shortcase_citation",
     types={"short_citation": "obj<ShortCaseCitation>", "resolved_full_cites": "seq[tuple[obj<FullCitation>,obj<Resource>]]"},
     returns="obj<Resource>", noraise=True, prop="C07",
-    requires={"rfc_wf": RFC_WF, "rfc_case_wf": RFC_CASE_WF,
-              "short": "short_citation is not None and short_citation.groups is not None and short_citation.metadata is not None "
+    requires={"rfc_wf": RFC_WF, "md_wf": MD_WF, "rfc_case_wf": RFC_CASE_WF,
+              "short": "short_citation is not None and short_citation.groups is not None and short_citation.metadata is not None and metadata_wf(short_citation) "
                        "and (short_citation.edition_guess is not None or 'reporter' in short_citation.groups)"},
     defs=SHORT_DEFS, locals_types={"candidates": "seq[tuple[obj<FullCitation>,obj<Resource>]]"},
     ghost={"cidx": "seq[int]", "cinv": "seq[int]"},
@@ -494,7 +495,6 @@ loop("resolve.resolve_citations", 1,
         "last_is_prev": "implies(k == 0, last_resolution is None) and implies(k > 0, (last_resolution is None) == (ghost.res[k - 1] is None) "
                         "and implies(last_resolution is not None, reskey(last_resolution) == ghost.res[k - 1] and map_has(resolutions, reskey(last_resolution))))",
     },
-    props={"last_is_prev": "C07"},
     # C08 (online): one step only appends the current citation to at most one list; nothing earlier changes
     step={
         "append_only": "forall(lambda r: implies(map_has(prev(resolutions), r), map_has(resolutions, r) and len(map_get(prev(resolutions), r)) <= len(map_get(resolutions, r)) "
@@ -506,6 +506,8 @@ loop("resolve.resolve_citations", 1,
                       "and forall(lambda m: implies(0 <= m and m < len(prev(resolved_full_cites)), resolved_full_cites[m][0] is prev(resolved_full_cites)[m][0] and resolved_full_cites[m][1] is prev(resolved_full_cites)[m][1]))",
     })
 R.loops[("resolve.resolve_citations", 1)].props.update({"append_only": "C08", "at_most_current": "C08", "rfc_prefix": "C08"})
+R.contracts["resolve.resolve_citations"].props.update({"append_only": "C08", "at_most_current": "C08", "rfc_prefix": "C08",
+    "same_objects_in_order": "C06", "disjoint": "C06", "first_is_full": "C06", "every_full_once": "C06", "share_iff_equal": "C06", "unknown_never": "C06", "recorded_iff_resolved": "C06"})
 
 ghost_code("resolve.resolve_citations", "loop1:body_end",
     "ghost.res = seq_append(ghost.res, ite(truthy(resolution), reskey(resolution), None))\n"
